@@ -122,6 +122,18 @@ CHECKS = {
             "cached or transplanted factorization is numerically valid for the (new) matrix.",
             TRUST + "; per-call autograd ctx objects and the settings classes (C17) are not operator history.",
             "DESIGN.md section 3, C12"),
+    "C02": (True,
+            "rebuild-site x constructor-signature table agreement resolved per concrete class through the MRO; "
+            "polarity-aware type-test dominance for scalar operands",
+            "Partial, structural: for each of the 36 operator classes and every method as resolved ON THAT CLASS "
+            "(inherited rewrite sites included; ~500 (class, site) obligations) a rebuild self.__class__(...) / "
+            "type(self)(...) must bind to the class's constructor and pass its value-bearing flags (upper, dim, "
+            "batch_repeat, batch_shape, num_outputs_per_input, open **params) - a dropped flag makes expand / permute / "
+            "index / scale / transpose / jitter return an operator that denotes a different matrix; and public arithmetic "
+            "methods dereference a python-scalar operand only behind a type test or conversion. Decided for every "
+            "class x rewrite cell at once. NOT decided: dense values, broadcasting arithmetic of constants, argument "
+            "types at rebuild sites, flags hidden behind an unrelated **dict.",
+            TRUST + "; reviewed tables of non-value flags and exceptions in lo_static/props/c02.py.", "DESIGN.md section 3, C02"),
 }
 
 NOT_APPLICABLE = {
